@@ -28,7 +28,7 @@ ASSUMPTIONS = [
     "non-minimal but valid BER (x690 writes length 127 as 81 7F) is accepted",
     "the request-id only has to be an Integer32 (identity with the response is C07)",
     "for walk-style operations every requested OID is a root or an OID the agent returned earlier, the first request asks "
-    "for roots only and every root is requested at some point (grouping and order are the implementation's choice)",
+    "for roots only and every root is requested at some point unless the agent has already answered endOfMibView behind a smaller OID (grouping and order are the implementation's choice; continuation requests may ask for any OID returned earlier or lying below a root)",
     "OIDs have >= 2 arcs, first arc 0..2, second arc < 40",
     "the wall clock stays inside Integer32 seconds",
 ]
@@ -221,7 +221,7 @@ def run_case(case) -> Result:
                     return bad("first request asks for %s, the roots are %s" % (
                         [vagent.S(o) for o in goids], [vagent.S(o) for o in roots]), r)
                 for o in goids:
-                    if o not in returned and o not in roots:
+                    if o not in returned and not any(o[:len(r0)] == r0 for r0 in roots):
                         return bad("continuation request asks for %s which the agent never returned" % vagent.S(o), r)
             else:
                 want = oids if op != "bulkget" else [tuple(o) for o in case["scalars"] + case["repeaters"]]
@@ -234,7 +234,8 @@ def run_case(case) -> Result:
         asked = set()
         for r2, pdu2 in data_reqs:
             asked |= {o for o, _, _ in pdu2["vbs"]}
-        missing = [o for o in oids if o not in asked]
+        eom_at = [o for r2, _ in data_reqs for o, t, _c in (r2.get("answer") or (0, 0, []))[2] if t == vber.T_ENDOFMIBVIEW]
+        missing = [o for o in oids if o not in asked and not any(e < o for e in eom_at)]
         if missing and exc is None:
             return bad("root %s was never requested" % vagent.S(missing[0]))
     if op not in WALKS and len(data_reqs) != 1:
